@@ -10,6 +10,7 @@
 //!
 //! Writes DIR/<component>.ops (run only), .impl, .mon.jsonl, .stats.json.
 
+pub mod looptrace;
 pub mod rng;
 pub mod util;
 
